@@ -1,9 +1,7 @@
-package lang_test
+package syncx_test
 
-// C18 — race unit. Hosted in lib/lang only because the driver builds one test
-// binary per repository package directory and this binary needs its own build
-// flags (-race); it tests lib/syncx through its public API exactly like the
-// main unit in lib/syncx does.
+// C18 — race unit (driver unit lib/syncx@race: same package, own binary built
+// with -race). Self-contained: it shares no code with the main unit.
 //
 // Zero delays: G goroutines leave a spin barrier together and run R operations
 // each against one primitive, inside a synctest bubble (so that TimeoutLimit's
@@ -34,6 +32,22 @@ type c18RaceCase struct {
 	R int    `json:"r"` // operations per goroutine
 	N int    `json:"n"` // size parameter (limit, pool size, keys)
 	Y int    `json:"y"` // runtime.Gosched calls inside callbacks / critical sections
+	P int    `json:"p"` // >0: the callback / guarded section of every call with (g+r)%P == 0 panics (recovered by the caller)
+}
+
+type c18RacePanic struct{}
+
+func c18RaceTry(f func()) (panicked bool) {
+	defer func() {
+		if r := recover(); r != nil {
+			if _, ok := r.(c18RacePanic); !ok {
+				panic(r)
+			}
+			panicked = true
+		}
+	}()
+	f()
+	return
 }
 
 type c18RaceCloser struct {
@@ -50,6 +64,9 @@ func c18Yield(n int) {
 
 func c18RaceInterp(t *testing.T, c c18RaceCase) kit.Verdict {
 	v := kit.Verdict{NonTrivial: c.G >= 2, Classes: []string{c.K, fmt.Sprintf("goroutines=%d", c.G)}}
+	if c.P > 0 && (c.K == "singleflight" || c.K == "lockedcalls" || c.K == "barrier") {
+		v.Classes = append(v.Classes, "callback-panics")
+	}
 	var failMu sync.Mutex
 	fail := ""
 	failf := func(format string, args ...interface{}) {
@@ -91,20 +108,39 @@ func c18RaceInterp(t *testing.T, c c18RaceCase) kit.Verdict {
 			var execs atomic.Int64
 			run(func(g, r int) {
 				k := (g + r) % keys
-				ran := false
-				val, err := sf.Do(fmt.Sprintf("k%d", k), func() (interface{}, error) {
-					ran = true
-					x := plain[k]
-					c18Yield(c.Y)
-					plain[k] = x + 1
-					return int(execs.Add(1)), nil
-				})
+				var val interface{}
+				var err error
+				boom := c.P > 0 && (g+r)%c.P == 0
+				if c18RaceTry(func() {
+					val, err = sf.Do(fmt.Sprintf("k%d", k), func() (interface{}, error) {
+						x := plain[k]
+						c18Yield(c.Y)
+						plain[k] = x + 1
+						id := int(execs.Add(1))
+						if boom {
+							panic(c18RacePanic{})
+						}
+						return id, nil
+					})
+				}) {
+					return
+				}
 				id, ok := val.(int)
+				if c.P > 0 && val == nil && err == nil {
+					return // waiter of a panicked execution: outcome unspecified
+				}
 				if err != nil || !ok || id < 1 || int64(id) > execs.Load() {
 					failf("single-flight: call returned (%v, %v), not the result of an execution", val, err)
 				}
-				_ = ran
 			})
+			// a later call always executes afresh, also after panicking executions
+			for k := 0; k < keys; k++ {
+				ran := false
+				_, _ = sf.Do(fmt.Sprintf("k%d", k), func() (interface{}, error) { ran = true; plain[k]++; execs.Add(1); return 0, nil })
+				if !ran {
+					failf("single-flight: a call made after every other call had returned did not execute (key %d)", k)
+				}
+			}
 			sum := 0
 			for _, p := range plain {
 				sum += p
@@ -117,12 +153,22 @@ func c18RaceInterp(t *testing.T, c c18RaceCase) kit.Verdict {
 			plain := make([]int, keys)
 			run(func(g, r int) {
 				k := (g + r) % keys
-				val, err := lc.Do(fmt.Sprintf("k%d", k), func() (interface{}, error) {
-					x := plain[k]
-					c18Yield(c.Y)
-					plain[k] = x + 1
-					return g*1000 + r, nil
-				})
+				var val interface{}
+				var err error
+				boom := c.P > 0 && (g+r)%c.P == 0
+				if c18RaceTry(func() {
+					val, err = lc.Do(fmt.Sprintf("k%d", k), func() (interface{}, error) {
+						x := plain[k]
+						c18Yield(c.Y)
+						plain[k] = x + 1
+						if boom {
+							panic(c18RacePanic{})
+						}
+						return g*1000 + r, nil
+					})
+				}) {
+					return
+				}
 				if err != nil || val != g*1000+r {
 					failf("locked-calls: call g%d#%d returned (%v, %v), not its own result", g, r, val, err)
 				}
@@ -318,10 +364,16 @@ func c18RaceInterp(t *testing.T, c c18RaceCase) kit.Verdict {
 			var b syncx.Barrier
 			plain := 0
 			run(func(g, r int) {
-				b.Guard(func() {
-					x := plain
-					c18Yield(c.Y)
-					plain = x + 1
+				boom := c.P > 0 && (g+r)%c.P == 0
+				c18RaceTry(func() {
+					b.Guard(func() {
+						x := plain
+						c18Yield(c.Y)
+						plain = x + 1
+						if boom {
+							panic(c18RacePanic{})
+						}
+					})
 				})
 			})
 			if plain != c.G*c.R {
@@ -375,6 +427,7 @@ func c18RaceGen(rt *rapid.T) c18RaceCase {
 		R: rapid.IntRange(1, 12).Draw(rt, "r"),
 		N: rapid.IntRange(1, 3).Draw(rt, "n"),
 		Y: rapid.IntRange(0, 2).Draw(rt, "y"),
+		P: rapid.SampledFrom([]int{0, 0, 3, 5}).Draw(rt, "p"),
 	}
 }
 
